@@ -278,6 +278,19 @@ def cases(tier, rng):
                     steps.append(step(W2, H2, rng.choice(FILLS)))
                     coords += interesting_coords(rng, dims, W, H, W2, H2, extra=2)[:60]
                 lines.append(line_scat(spec, steps, coords[:160], d))
+    # 6. requests far beyond 2^31 (the guard of the theorems is 2^62): products of the request with the symbol
+    # size exceed 2^63 here, so any comparison by cross-multiplication or any 64-bit intermediate overflows
+    BIG = [(1 << 62) - 1, 5 * 10 ** 17, 878416384462359601, 3 * 10 ** 18, (1 << 61) + 12345, 7 * 10 ** 9, (1 << 32) + 1]
+    for spec in [s for s in src if s not in RAW_SHIFTED and s not in RAW_BAD_DIMS][:: (3 if quick else 1)]:
+        d, info = src[spec]
+        w, h, dims = info["w"], info["h"], info["dims"]
+        for Wb in (rng.sample(BIG, 3) if quick else BIG):
+            for (W, H) in ((Wb, rng.choice([h, 3 * h + 1, 100, 50])), (rng.choice([w, 2 * w + 1, 100]), Wb), (Wb, Wb - rng.randrange(0, 1000))):
+                if dims == 1 and H == Wb:
+                    H = rng.choice([1, 7, Wb])
+                steps = [step(W, H, rng.choice(FILLS))]
+                coords = interesting_coords(rng, dims, w, h, W, H)
+                lines.append(line_scat(spec, steps, coords[:120], d))
     return lines
 
 
